@@ -1,60 +1,135 @@
-"""stand-ins: guarded set/dict, metrics monitors, canvas recorder (prototype)"""
+"""Stand-ins for everything that is not a tensor: guarded sets/dicts, the metrics/traffic/format/compute/
+intersector models and the canvas.  They never touch tensors; they record every call with its path
+condition (protocol monitor) and return fresh symbols (one per call) where a number is expected."""
 import z3
-from .sym import *
-from .model import CTX, ckey
+
+from .model import CTX
+from .sym import gand, gnot, gor, is_symt, ite, num_eq
+
 
 class SymSet:
-    def __init__(self, *a): self.el = []   # (key tuple, guard)
+    def __init__(self, *a):
+        self.el = []   # (key, guard)
+
     def contains(self, x):
         return gor(*[gand(g, num_eq(k, x)) for k, g in self.el])
+
     def add(self, x):
         pc = CTX.cur()
         self.el.append((x, gand(pc, gnot(self.contains(x)))))
 
+
 class SymDict:
-    """dict with possibly symbolic keys; plain python dict behaviour for concrete str keys"""
-    def __init__(self): self.ent = []   # [key, guard, value]
-    def keys(self): return self
+    """dict with possibly symbolic keys; plain dict behaviour for concrete keys"""
+
+    def __init__(self):
+        self.ent = []   # [key, guard, value]
+
+    def keys(self):
+        return self
+
     def contains(self, k):
         return gor(*[gand(g, num_eq(kk, k)) for kk, g, v in self.ent])
+
+    def __contains__(self, k):
+        c = self.contains(k)
+        if isinstance(c, bool):
+            return c
+        raise TypeError("symbolic membership")
+
+    def concrete_keys(self):
+        return [k for k, g, v in self.ent if g is not False]
+
     def __getitem__(self, k):
-        out = 0
+        out = None
+        hit = False
         for kk, g, v in self.ent:
-            out = ite(gand(g, num_eq(kk, k)), v, out)
+            c = gand(g, num_eq(kk, k))
+            if c is True:
+                out = v
+                hit = True
+            elif c is not False:
+                out = ite(c, v, out if out is not None else 0)
+                hit = True
+        if not hit:
+            raise KeyError(k)
         return out
+
     def __setitem__(self, k, v):
         pc = CTX.cur()
-        hit_any = False
         for e in self.ent:
             hit = gand(pc, e[1], num_eq(e[0], k))
+            if hit is True:
+                e[2] = v
+                return
             if hit is not False:
                 e[2] = ite(hit, v, e[2])
         self.ent.append([k, gand(pc, gnot(self.contains(k))), v])
 
+
 class Recorder:
-    def __init__(self): self.events = []
-    def log(self, kind, *a, **k): self.events.append((kind, CTX.cur(), a, k))
+    def __init__(self):
+        self.events = []
+        self.counter = 0
+        self.fresh = {}
+
+    def log(self, kind, obj, a, k):
+        self.counter += 1
+        ev = {"n": self.counter, "kind": kind, "obj": obj, "pc": CTX.cur(), "args": a, "kwargs": k}
+        self.events.append(ev)
+        return ev
+
+    def real(self, name):
+        if name not in self.fresh:
+            self.fresh[name] = z3.Real(name)
+        return self.fresh[name]
+
 
 class Stub:
-    """inert object: any attribute is a callable returning a Stub / symbol"""
-    def __init__(self, rec, name): self._rec, self._name = rec, name
+    """inert model object: attribute -> method stub; call -> logged event, returns a new stub with a unique name;
+    used as a number it becomes a fresh z3 Real named after the call that produced it"""
+
+    def __init__(self, rec, name, oid=None):
+        self._rec, self._name, self._oid = rec, name, oid
+
     def __getattr__(self, attr):
-        def f(*a, **k):
-            self._rec.log(self._name + "." + attr, *a, **k)
-            return Stub(self._rec, self._name + "." + attr + "()")
-        return f
+        if attr.startswith("__"):
+            raise AttributeError(attr)
+        return Method(self._rec, self, attr)
+
     def __call__(self, *a, **k):
-        self._rec.log(self._name, *a, **k)
-        return Stub(self._rec, self._name + "()")
+        ev = self._rec.log(self._name, None, a, k)
+        return Stub(self._rec, "%s#%d" % (self._name, ev["n"]), ev["n"])
+
     def __getitem__(self, k):
-        return z3.Real("%s[%r]" % (self._name, k)) if isinstance(k, str) and False else Stub(self._rec, "%s[%r]" % (self._name, k))
+        return Stub(self._rec, "%s[%r]" % (self._name, k), self._oid)
+
+    def as_real(self):
+        return self._rec.real(self._name)
+
+    def __repr__(self):
+        return "<%s>" % self._name
+
+
+class Method:
+    def __init__(self, rec, obj, attr):
+        self.rec, self.obj, self.attr = rec, obj, attr
+
+    def __call__(self, *a, **k):
+        ev = self.rec.log("%s.%s" % (self.obj._name.split("#")[0], self.attr), self.obj, a, k)
+        return Stub(self.rec, "%s.%s#%d" % (self.obj._name, self.attr, ev["n"]), ev["n"])
+
+
+API_STUBS = ["Metrics", "Traffic", "Format", "Compute", "LeaderFollowerIntersector", "SkipAheadIntersector",
+             "TwoFingerIntersector", "createCanvas", "displayCanvas"]
+
 
 def install(env):
     rec = Recorder()
-    for n in ["Metrics", "Traffic", "Format", "Compute", "LeaderFollowerIntersector", "SkipAheadIntersector",
-              "TwoFingerIntersector", "createCanvas", "displayCanvas"]:
+    for n in API_STUBS:
         env[n] = Stub(rec, n)
     env["set"] = SymSet
     env["float"] = float
     env["None"] = None
+    env["__rec__"] = rec
     return rec
